@@ -25,7 +25,7 @@ type strIndexUse struct {
 var indexFinders = map[string]bool{
 	"strings.Index": true, "strings.LastIndex": true, "strings.IndexByte": true, "strings.IndexRune": true, "strings.IndexAny": true,
 	"strings.LastIndexByte": true, "strings.LastIndexAny": true, "strings.IndexFunc": true, "strings.LastIndexFunc": true,
-	"bytes.Index": true, "bytes.LastIndex": true, "bytes.IndexByte": true,
+	"bytes.Index": true, "bytes.LastIndex": true, "bytes.IndexByte": true, "bytes.LastIndexByte": true, "bytes.IndexRune": true,
 }
 
 // derivesFrom: v is j, or j ± something, or a phi/convert of such.
